@@ -61,8 +61,8 @@ def exhaustive(tier):
     leave the value untouched."""
     for kind in ("list", "dict"):
         for k in (2, 3, 4):
-            for op in ("append", "setitem", "insert", "setdefault", "update1", "update-pairs", "update-kw", "ior"):
-                if (kind == "list") != (op in ("append", "setitem", "insert")):
+            for op in ("append", "setitem", "insert", "setdefault", "update1", "update-pairs", "update-kw", "ior", "assign-too-many", "setitem-path-too-many"):
+                if not op.endswith("too-many") and (kind == "list") != (op in ("append", "setitem", "insert")):
                     continue
                 for i in (range(-5, 6) if op in ("insert", "setitem") else (0,)):
                     for bad_item in (False, True):
@@ -201,6 +201,15 @@ def _limit_case(case, R):
             box.insert(i, item)
         elif what == "setitem":
             box[i] = item
+        elif what in ("assign-too-many", "setitem-path-too-many"):
+            # a whole new value whose items / entries are all fine, but which the field's own validator rejects (too many)
+            big = list(range(20, 26)) if case["kind"] == "list" else {"n%d" % j: j for j in range(6)}
+            if case["bad_item"]:
+                big = big[:2] + [-1] if case["kind"] == "list" else dict(list(big.items())[:2], bad=-1)
+            if what == "assign-too-many":
+                cfg.box = big
+            else:
+                cfg["box"] = big
         elif what == "setdefault":
             box.setdefault("new", item)
         elif what == "update1":
